@@ -31,8 +31,10 @@ Print Assumptions C13_disconnect_connect_partial.
    disconnect additionally restores every (address, height) entry of the
    per-address UTXO index as a multiset (an empty entry is the same as an
    absent one in the model), and re-establishes [inv2].
-   Still conditional: both SaveBlock and RollbackBlock return Ok (their success
-   on valid blocks is observed on the real store, not proved). *)
+   Conditional on both SaveBlock and RollbackBlock returning Ok: SaveBlock's
+   success on valid blocks is C13_save_block_succeeds below; RollbackBlock's is
+   proved for the tx index and the per-address index and observed on the real
+   store for the unspent index. *)
 Theorem C13_disconnect_connect : forall s c b s1 s2,
   inv2 s c -> c <> [] -> valid_block s b ->
   (forall b', In b' c -> b_height b' < b_height b) ->
@@ -85,6 +87,22 @@ Proof. exact refs_known_resolved. Qed.
 Print Assumptions C13_addr_index_connect_succeeds.
 Print Assumptions C13_addr_index_disconnect_succeeds.
 Print Assumptions C13_refs_known_resolved.
+
+(* Progress, SaveBlock as a whole: in every state consistent with a chain,
+   a block that extends the index tip and that validation lets through
+   (valid_block, and GetTxReference succeeding for every non-coinbase
+   transaction) is connected: SaveBlock returns Ok.  In particular the
+   unspent-index write-back never deletes an entry that does not exist.
+   This discharges the "save_block s b = Ok s1" hypothesis of
+   C13_disconnect_connect; of "rollback_block ... = Ok s2" the tx-index and
+   per-address parts are discharged above, the unspent-index part
+   (unspent_disconnect) stays observed on the real store. *)
+Theorem C13_save_block_succeeds : forall s c b,
+  inv s c -> valid_block s b -> b_prev b = s_tip s ->
+  (forall t, In t (b_txs b) -> t_cb t = false -> refs_known s t = true) ->
+  exists s1, save_block s b = Ok s1.
+Proof. exact save_block_ok. Qed.
+Print Assumptions C13_save_block_succeeds.
 
 (* ---------------------------------------------------------------- witnesses *)
 Definition x_cb (id lock : N) := mkTx id true lock [] [mkOut 0 30; mkOut 1 35; mkOut 0 35]%Z SNone.
@@ -162,3 +180,16 @@ Proof.
   split; [apply init_inv2; [reflexivity|repeat constructor; intros []|reflexivity]|].
   split; [intros b' [<-|[]]; vm_compute; reflexivity|]. vm_compute. auto.
 Qed.
+
+(* The validation hypotheses of C13_save_block_succeeds are needed: a block
+   spending the only output of transaction 1 twice (two transactions) makes the
+   unspent-index write-back meet an entry that is already gone or the
+   per-address step fail, and SaveBlock reports an error; the valid block x_b
+   is connected. *)
+Example C13_save_block_needs_validation :
+  let bad := mkBlock 2 1 1 [x_cb 2 1; mkTx 3 false 0 [(9, 0)] [mkOut 2 999]%Z SNone] in
+  (match save_block x_s0 bad with Ok _ => False | _ => True end) /\
+  (match save_block x_s0 (x_b 1) with Ok _ => True | _ => False end) /\
+  refs_known x_s0 (mkTx 3 false 0 [(1, 0)] [mkOut 2 999]%Z SNone) = true /\
+  refs_known x_s0 (mkTx 3 false 0 [(9, 0)] [mkOut 2 999]%Z SNone) = false.
+Proof. vm_compute. auto. Qed.
